@@ -331,7 +331,12 @@ class C06(PropertyCheck):
             "transposed block or an expanded column (unseen cells hold other valid tokens), dtype int64/int32; "
             "all chunk sizes 1..T+2 (and < 1: RuntimeError); scalar and per-element idx, also spelled as python "
             "int / one-element vector / negative / int32; constructor positional / destructive / prob_list=; "
-            "state_dict round trip through torch.save/load; a layout stream (every layout x order 2..4 x B 2..3, "
+            "state_dict round trip through torch.save/load; a DESIGNED-SPARSITY stream for the two paths of the "
+            "lookup's descent (for one window: the context path alive down to depth dc - contexts listed with non-zero "
+            "back-off weights - and every n-gram path dead below depth dn, nothing else in the table resurrecting "
+            "either, finite unigrams; every pair (dc, dn) for order 4 [2..6 thorough], pairs two or more levels apart "
+            "also for order 5 and 6; evaluated alone - batch of one, chunk size 1, scalar idx -, next to a copy of "
+            "itself and next to a history matching at the highest order), also drawn in the random bulk; a layout stream (every layout x order 2..4 x B 2..3, "
             "T>=3); a size stream (hundreds of n-grams, V up to 127) crossing the uint8/int16 offset boundary; "
             "an out-of-vocabulary stream (ids never in the most recent slot); a malformed stream (ValueError "
             "expected); ARPA text through every entry (file object, path, opened file) x to_base_e "
@@ -344,8 +349,10 @@ class C06(PropertyCheck):
         "float32 arithmetic is exact on the generated value grid (checked: every compared value is an exact rational)",
         "torch indexing / masked_select / as_strided / contiguous / is_contiguous taken at their documented meaning "
         "(is_contiguous() is compared with the model's on every case)",
-        "the Lean model's buffers pass the proved-sound layout check `checkBuilt` on every generated case (evaluated by "
-        "the driver; hypothesis of theorem C06_lookup_checked)",
+        "every generated (non-malformed) table satisfies the decidable hypotheses of theorems C06_flat / C06_lookup / "
+        "C06_model (`tableOK`: keys of one order pairwise distinct, no NaN, finite back-off weights below the highest "
+        "order) - evaluated by the driver on every case; the layout check `checkBuilt`, which C06_flat proves can "
+        "never fail for such a table, is still evaluated on every case as a cross-check",
         "history tokens are in [0,V) or sos; out-of-vocabulary ids are only exercised away from the most recent "
         "slot of a window and below 256 (the code indexes the unigram level with the most recent token and casts "
         "the window to the id dtype)",
@@ -855,6 +862,9 @@ class C06(PropertyCheck):
         if not case.get("malformed") and not model["flat_check"]:
             raise AssertionError("Lean model: the buffers built by buildTrie do not pass checkFlat for the case's "
                                  "table (the hypothesis of theorem C06_lookup_checked fails on this input)")
+        if not case.get("malformed") and not model.get("table_ok"):
+            raise AssertionError("Lean model: the case's table does not satisfy `tableOK`, the hypothesis of theorems "
+                                 "C06_flat / C06_lookup / C06_model")
         if not model["view_rows_ok"]:
             raise AssertionError("Lean model: the view's logical rows are not the case's history")
         if not case.get("oov"):
